@@ -1041,6 +1041,11 @@ def run(ctx):
     q = ctx.quick
     base = ctx.seed * 1000
 
+    def section(runner, cases, name, **kw):
+        if ctx.only and name not in ctx.only:
+            return
+        ctx.run_cases(runner, cases, name, **kw)
+
     # ---------------------------------------------------------------- vectorize, direct
     k7 = ['py', 'a0', 'v', 'm2', 'list', 'str', 'vlong']
     if q:
@@ -1071,7 +1076,7 @@ def run(ctx):
         'batch_size': ['given', 'inferred'], 'pool_cases': len(cases)}
     # heavy cases first so the pool balances
     cases.sort(key=lambda c: -len(c['kinds']) ** c['arity'])
-    ctx.run_cases(run_vec, cases, 'vectorize', chunksize=1)
+    section(run_vec, cases, 'vectorize', chunksize=1)
 
     # ---------------------------------------------------------------- vectorize inside a model
     variants = ['a0', 'p1', 'p2', 'p1c', 'p1ca', 'cp1', 'pm', 'cc']
@@ -1092,7 +1097,7 @@ def run(ctx):
                                               'bs': bs, 'batch_index': bi, 'seed': s})
     ctx.extra['model_alphabet'] = {'variants': variants, 'batch_sizes': mbs, 'batch_indices': mbi, 'seeds': mseeds,
                                    'cases': len(cases)}
-    ctx.run_cases(run_model, cases, 'model', sample_every=max(1, len(cases) // 4))
+    section(run_model, cases, 'model', sample_every=max(1, len(cases) // 4))
 
     # ---------------------------------------------------------------- external, direct
     temps = _templates(q)
@@ -1120,12 +1125,12 @@ def run(ctx):
     ctx.extra['external_alphabet'] = {'tokens': TOKENS, 'templates': len(temps), 'forms': forms, 'dtypes': xdts,
                                       'supply_modes': ['kw', 'meta+random_state'], 'cases': len(cases),
                                       'skipped_seed_does_not_fit_dtype': skipped}
-    ctx.run_cases(run_ext, cases, 'external', sample_every=max(1, len(cases) // 4))
+    section(run_ext, cases, 'external', sample_every=max(1, len(cases) // 4))
 
     # ---------------------------------------------------------------- seeds
     cases = [{'kind': 'extseed', 'seed': base + k, 'consumed': c, 'bs': bs}
              for k in range(4 if q else 12) for c in ((0, 3) if q else (0, 1, 3, 700)) for bs in ((3,) if q else (2, 3, 5))]
-    ctx.run_cases(run_extseed, cases, 'extseed')
+    section(run_extseed, cases, 'extseed')
 
     # ---------------------------------------------------------------- vectorize(external), direct
     vt = [[t] for t in VTOKENS] + [list(p) for p in itertools.product(VTOKENS, repeat=2)] + [list(VTOKENS)]
@@ -1140,7 +1145,7 @@ def run(ctx):
                         cases.append({'kind': 'extvec', 'tokens': toks, 'form': form, 'dtype': dt, 'bs': bs,
                                       'bsmode': bsmode if bs != 3 or not q else 'given', 'seed': base + ti % 3})
     ctx.extra['extvec_alphabet'] = {'tokens': VTOKENS, 'templates': len(vt), 'cases': len(cases)}
-    ctx.run_cases(run_extvec, cases, 'extvec')
+    section(run_extvec, cases, 'extvec')
 
     # ---------------------------------------------------------------- external inside a model
     cases = []
@@ -1158,7 +1163,7 @@ def run(ctx):
             for bi in [0, 2]:
                 cases.append({'kind': 'extmodel', 'vectorized': False, 'tokens': toks, 'form': 'echo', 'bs': bs,
                               'batch_index': bi, 'seed': base})
-    ctx.run_cases(run_extmodel, cases, 'extmodel')
+    section(run_extmodel, cases, 'extmodel')
 
     ctx.rule = (
         'vectorize: one case per (arity, constants mask, dtype); inside it the full product input-kind tuple x batch '
